@@ -250,7 +250,25 @@ fn judge(env: &mut Env, base: &World, idx: usize, bytes: &[u8]) -> Result<u64, F
             ));
         }
     }
-    Ok(hash_of(&(ty >> 8 == 0x92 || ty >> 8 == 0x91 || ty >> 8 == 0x90, internal(ty), delivered.len().min(2), changed_mask, client_known, w.connections[idx].connected)))
+    // outcome class: known type code (or 0), length class, deliveries, proof/liveness effects, link state
+    let ty_class = if KNOWN.contains(&ty) { ty } else { 0 };
+    let len_class = match bytes.len() {
+        0..=7 => 0u8,
+        8..=9 => 1,
+        10..=19 => 2,
+        20..=37 => 3,
+        _ => 4,
+    };
+    Ok(hash_of(&(
+        ty_class,
+        len_class,
+        delivered.len().min(2),
+        changed_mask,
+        client_known,
+        w.connections[idx].connected,
+        w.connections.iter().map(|c| c.in_flight_packets).collect::<Vec<_>>(),
+        out.wire.len(),
+    )))
 }
 
 fn tail(kind: usize, len: usize) -> Vec<u8> {
@@ -374,7 +392,7 @@ pub fn run(tier: Tier) -> Report {
     }
     let quick = tier.is_quick();
     let states: Vec<usize> = if quick { vec![1, 3, 5, 6, 8] } else { (0..STATE_NAMES.len()).collect() };
-    let sweep_lens: Vec<usize> = if quick { vec![2, 9, 20, 38] } else { vec![2, 3, 4, 7, 8, 9, 10, 12, 16, 19, 20, 24, 38, 64, 65, 258, 1316, 1500] };
+    let sweep_lens: Vec<usize> = if quick { vec![2, 4, 9, 10, 20, 38, 258] } else { vec![2, 3, 4, 7, 8, 9, 10, 12, 16, 19, 20, 24, 38, 64, 65, 258, 1316, 1500] };
     let sweep_tails: Vec<usize> = if quick { vec![3] } else { vec![0, 1, 2, 3] };
     let n_inj = AtomicU64::new(0);
     let distinct: Mutex<std::collections::HashSet<u64>> = Mutex::new(Default::default());
